@@ -50,6 +50,7 @@ def _cases(draw, max_size=10):
     targets = sorted(draw(st.lists(gen.target_values(pops), min_size=k, max_size=k)))
     return dict(s=s, targets=targets, derived=draw(st.sampled_from(DERIVED)), seed=draw(gen.RNG_SEED),
                 tlayout=draw(st.sampled_from(["1d", "1d", "F", "T", "strided"])),
+                target_dtype=draw(st.sampled_from([None, None, None, "float32", "float16", "longdouble"])),
                 ratio=draw(st.sampled_from([0.5, 0.8, 0.34])))
 
 
@@ -80,9 +81,13 @@ def _obj(s, sc, ec):
 def check(case):
     s = case["s"]
     rs = np.asarray(case["targets"], dtype=float)
+    if case.get("target_dtype"):
+        # targets held in single / half / extended precision: the question asked is the value held
+        with np.errstate(over="ignore"):
+            rs = np.sort(rs.astype(case["target_dtype"]).astype(float))
     nontrivial = False
     derived = case.get("derived", "none")
-    labels = [f"mode:{s['mode']}", f"container:{s.get('container')}", f"object:{derived}",
+    labels = [f"mode:{s['mode']}", f"container:{s.get('container')}", f"object:{derived}", f"target-dtype:{case.get('target_dtype')}",
               f"targets:{case.get('tlayout', '1d')}"]
     for sc, ec in CONFIGS:
         obj = _obj(s, sc, ec)
@@ -100,7 +105,8 @@ def check(case):
             ep, en = int(obj.nb_easy_pos), int(obj.nb_easy_neg)
         sc_o, ec_o = obj.score_class.value, obj.equal_class.value
         for m in METRICS:
-            nontrivial |= _check_metric(obj, m, pos, neg, ep, en, rs, sc_o, ec_o, labels, case.get("tlayout", "1d"))
+            nontrivial |= _check_metric(obj, m, pos, neg, ep, en, rs, sc_o, ec_o, labels, case.get("tlayout", "1d"),
+                                        case.get("target_dtype"))
     s_ep, s_en = s["ep"], s["en"]
     if s_ep or s_en:
         labels.append("easy")
@@ -118,7 +124,7 @@ def _as_layout(rs, layout):
     return rs.copy()
 
 
-def _check_metric(obj, m, pos, neg, ep, en, rs, sc, ec, labels, tlayout="1d"):
+def _check_metric(obj, m, pos, neg, ep, en, rs, sc, ec, labels, tlayout="1d", tdt=None):
     nontrivial = False
     if True:
         rel = [float(x) for x in relevant_scores(m, pos, neg)]
@@ -141,6 +147,8 @@ def _check_metric(obj, m, pos, neg, ep, en, rs, sc, ec, labels, tlayout="1d"):
             f = getattr(obj, m)
             th = getattr(obj, "threshold_at_" + m)
             rs_in = _as_layout(rs, tlayout)
+            if tdt:
+                rs_in = rs_in.astype(tdt)  # the targets as the caller holds them (rs are their exact values)
             rs_in0 = rs_in.copy()
             t_lin = np.asarray(th(rs_in), dtype=float)
             t_lo = np.asarray(th(rs_in, method="lower"), dtype=float)
